@@ -57,7 +57,8 @@ class SeqChannel:
         elif fr.name == 'Queue.Declare':
             self.ch.on_frame(spec.Queue.DeclareOk(queue=fr.queue, message_count=0, consumer_count=0))
         elif fr.name == 'Basic.Cancel':
-            self.ch.on_frame(spec.Basic.CancelOk(consumer_tag=fr.consumer_tag))
+            if getattr(self, 'cancel_reply', 'prompt') == 'prompt':
+                self.ch.on_frame(spec.Basic.CancelOk(consumer_tag=fr.consumer_tag))
         elif fr.name == 'Basic.Consume' and getattr(self, 'consume_reply', 'prompt') == 'prompt':
             self.ch.on_frame(spec.Basic.ConsumeOk(consumer_tag=fr.consumer_tag))
         elif fr.name == 'Channel.CloseOk':
@@ -179,6 +180,19 @@ def seq_guard_history(rep, rng):
                 sc.ch.basic.consume(lambda m: None, 'q', consumer_tag=t)
                 live.append(t)
                 hist.append('consume:' + t)
+            elif what < 0.82 and live:
+                # stop_consuming() while the broker does not answer Basic.Cancel: the call fails with the RPC time-out, the
+                # consumers are still active at the broker (it keeps delivering), so get must still be refused
+                sc.cancel_reply = 'none'
+                sc.ended = False
+                try:
+                    sc.ch.stop_consuming()
+                    hist.append('stop-returned')
+                    live = []
+                except AMQPChannelError:
+                    hist.append('stop-timed-out')
+                sc.cancel_reply = 'prompt'
+                sc.ended = False
             elif what < 0.9:
                 # a consume whose ConsumeOk comes too late: the call times out, then the broker's confirmation arrives - the
                 # broker does have this consumer, so the channel must list it and get must be refused
